@@ -336,6 +336,35 @@ func runC10(c *core.Ctx) {
 			c.Call("layout(constructed)", enc, func() { check("keys_and_cert.NewKeysAndCert", ck) })
 			c.Bucket("layout-constructed")
 		}
+		// the key decoders given the whole field a key sits in (128 bytes for the signing key, 256 for
+		// the crypto key) instead of the exact key: when they return a key at all, it is the key at the
+		// position the specification gives it - the END of the signing field, the START of the crypto field
+		if kc0, ok, err := lib.BuildKeyCert(rm.KeyCert(sig, cr, nil)); ok && err == nil && kc0 != nil {
+			if spk <= 128 {
+				field := m.Block[256:384]
+				var sk interface{ Bytes() []byte }
+				c.Call("key_certificate.KeyCertificate.ConstructSigningPublicKey(field)", field, func() {
+					if k, err := kc0.ConstructSigningPublicKey(field); err == nil && k != nil {
+						sk = k
+					}
+				})
+				if sk != nil && !bytes.Equal(sk.Bytes(), field[128-spk:]) {
+					c.Violate("key_certificate.KeyCertificate.ConstructSigningPublicKey", "signing-key-not-at-block-end", sh, field, fmt.Sprintf("given the 128-byte field it returns %x.., the key is the last %d bytes %x..", head(sk.Bytes(), 8), spk, head(field[128-spk:], 8)))
+				}
+			}
+			if cpk <= 256 {
+				field := m.Block[:256]
+				var pk interface{ Bytes() []byte }
+				c.Call("key_certificate.KeyCertificate.ConstructPublicKey(field)", field, func() {
+					if k, err := kc0.ConstructPublicKey(field); err == nil && k != nil {
+						pk = k
+					}
+				})
+				if pk != nil && !bytes.Equal(pk.Bytes(), field[:cpk]) {
+					c.Violate("key_certificate.KeyCertificate.ConstructPublicKey", "crypto-key-not-at-block-start", sh, field, fmt.Sprintf("given the 256-byte field it returns %x.., the key is the first %d bytes", head(pk.Bytes(), 8), cpk))
+				}
+			}
+		}
 		// the certificate of a value that has been used is replaced by one declaring another pair
 		// (exported field): every key the value then hands out without error has the length its
 		// CURRENT certificate declares, and what it serialises without error is a block of the current
